@@ -91,3 +91,11 @@ func VerifNamespaceRootToken(c *Core, nsPath string) (string, error) {
 	}
 	return te.ExternalID, nil
 }
+
+// VerifPurgeCache empties the physical read cache (what an operator's restart
+// or cache pressure does): the next reads reach the storage backend.
+func VerifPurgeCache(c *Core) {
+	if c.physicalCache != nil {
+		c.physicalCache.Purge(context.Background())
+	}
+}
